@@ -426,14 +426,11 @@ class Engine:
         cs = z3.simplify(claim)
         if z3.is_true(cs):
             return True, None
-        key = id(pc)
-        pcset = self._pcsets.get(key)
-        if pcset is None or pcset[0] != len(pc):
-            pcset = (len(pc), {c.get_id() for c in pc} | {z3.simplify(c).get_id() for c in pc})
-            self._pcsets = {key: pcset}
         conj = cs.children() if z3.is_and(cs) else [cs]
-        if all(c.get_id() in pcset[1] for c in conj):
-            return True, None
+        if len(conj) <= 4:
+            pcs = pc + [z3.simplify(c) for c in pc]
+            if all(any(c.eq(x) for x in pcs) for c in conj):
+                return True, None
         st = getattr(path_or_pc, 'st', None)
         mdl = getattr(st, 'model', None) if st is not None else None
         if mdl is not None:
